@@ -16,11 +16,12 @@ RULE = ('Hypothesis-generated transaction lists (0-40 txns; amounts in cents and
         'category pairs, up to 14 months, 1-3 sources) analysed by analyze_transactions and compared with an exact-rational '
         'reference, with singleton additivity, a generated permutation and a generated 2-way partition; plus the exhaustive '
         'product of special-tag subsets x case styles x amount classes for categorize_amount. Non-trivial = at least two of '
-        'the six buckets populated AND two transactions sharing a merchant or month; distinct by hash of the case.')
+        'the six buckets populated AND two transactions sharing a merchant or month; distinct by hash of the case. Plus report-level splits: '
+        'the same 2-8 statement rows as one data source and as 2-3 files (source names may repeat) must give the same `tally up --format json`.')
 ASSUMPTIONS = ['float sums compared with tolerance 1e-6*max(1, sum|amount|) because accumulation order differs',
                'per-key totals are compared with the sum of the same transactions analysed one at a time (additivity), '
                'so no particular normalisation of signs is assumed beyond the six flow buckets']
-REQUIRED_CLASSES = ['two_special_tags', 'special_tag_nonlower', 'zero_amount', 'negative_amount']
+REQUIRED_CLASSES = ['two_special_tags', 'special_tag_nonlower', 'zero_amount', 'negative_amount', 'split_same_source_name']
 
 SPECIAL = ['income', 'investment', 'transfer']
 ORD_TAGS = ['recurring', 'food', 'Business', 'INCOMES', 'transfers', 'invest', 'x']
@@ -247,12 +248,75 @@ def replay(case):
         if bool(is_excluded_from_spending(list(tags))) != exp_excl:
             raise Violation(f'is_excluded_from_spending({tags!r}) != {exp_excl}', case, 'excluded')
         return
+    if case.get('kind') == 'split':
+        return check_split(case, Stats())
     check(case, Stats())
+
+
+# ------------------------------------------------------------------------------------------------
+# the same statement rows kept as ONE data source or split over several files (which may carry the same source name): `tally up` reports the
+# same figures
+# ------------------------------------------------------------------------------------------------
+SPLIT_RULES = ('[Payroll]\nmatch: contains("PAYROLL")\ncategory: Income\nsubcategory: Salary\ntags: income\n\n[Vanguard]\nmatch: contains("VANGUARD")\ncategory: Savings\n'
+               'subcategory: Retirement\ntags: Investment\n\n[Xfer]\nmatch: contains("XFER")\ncategory: Transfers\nsubcategory: Own\ntags: TRANSFER\n\n[Grocer]\nmatch: contains("GROCER")\n'
+               'category: Food\nsubcategory: Grocery\n\n[Cafe]\nmatch: contains("CAFE")\ncategory: Food\nsubcategory: Coffee\ntags: treat\n')
+split_st = st.fixed_dictionaries({
+    'kind': st.just('split'),
+    'txns': st.lists(st.tuples(st.sampled_from(['PAYROLL ACME', 'VANGUARD 401K', 'XFER SAVINGS', 'GROCER', 'CAFE', 'REFUND SHOP', 'GROCER 2']),
+                               st.integers(-300000, 300000).filter(bool), st.integers(1, 12), st.integers(1, 28)).map(list), min_size=2, max_size=8),
+    'cuts': st.lists(st.integers(1, 7), min_size=1, max_size=2, unique=True),
+    'names': st.lists(st.sampled_from(['Bank', 'Bank', 'Card']), min_size=3, max_size=3),
+})
+
+
+def _round(x):
+    if isinstance(x, float):
+        return round(x, 6)
+    if isinstance(x, dict):
+        return {k: _round(v) for k, v in x.items()}
+    if isinstance(x, list):
+        return [_round(v) for v in x]
+    return x
+
+
+def check_split(case, stats):
+    import json as _json
+    from tv.drv import cli
+    from tv import obs
+    txns = case['txns']
+    cuts = sorted(c for c in case['cuts'] if 0 < c < len(txns))
+    chunks = [txns[a:b] for a, b in zip([0] + cuts, cuts + [len(txns)])]
+    fmt = '{date:%Y-%m-%d},{description},{amount}'
+
+    def report(parts, names):
+        with cli.Budget() as bd:
+            lines = ['year: 2024', 'data_sources:']
+            for i, (rows, nm) in enumerate(zip(parts, names)):
+                bd.write(f'data/s{i}.csv', 'Date,Description,Amount\n' + ''.join(f'2024-{m:02d}-{d:02d},{desc},{c / 100:.2f}\n' for desc, c, m, d in rows))
+                lines += [f'  - name: {nm}', f'    file: data/s{i}.csv', f'    format: "{fmt}"']
+            lines.append('merchants_file: config/merchants.rules')
+            bd.write('config/settings.yaml', '\n'.join(lines) + '\n')
+            bd.write('config/merchants.rules', SPLIT_RULES)
+            r = cli.run(['up', '-q', '--format', 'json', bd.config], cwd=bd.root)
+            if r.code != 0 or obs.crashed(r.err):
+                raise Violation(f'`tally up --format json` failed (exit {r.code}) for sources {names[:len(parts)]}: {(r.err or r.out)[-600:]}', case, 'split-up-failed')
+            try:
+                return _round(_json.loads(r.out))
+            except ValueError:
+                raise Violation(f'`tally up --format json` printed no JSON: {r.out[:300]}', case, 'split-json')
+    whole = report([txns], ['Bank'])
+    parts = report(chunks, case['names'])
+    if whole != parts:
+        diff = [k for k in whole if whole.get(k) != parts.get(k)]
+        raise Violation(f'the same {len(txns)} rows as one source and split into {[len(c) for c in chunks]} files named {case["names"][:len(chunks)]} give different reports; differing '
+                        f'sections {diff}: one source {_json.dumps({k: whole[k] for k in diff})[:500]} vs split {_json.dumps({k: parts.get(k) for k in diff})[:500]}', case, 'split-across-sources')
+    same = len(chunks) > 1 and len(set(case['names'][:len(chunks)])) < len(chunks)
+    stats.case(jhash(case), len(chunks) > 1, {'report_split'} | ({'split_same_source_name'} if same else set()), sample=case if same else None)
 
 
 def shards(tier):
     n = 500 if tier == 'quick' else 8000
-    return [('exhaustive', 0)] + [('random', n)] * 16
+    return [('exhaustive', 0)] + [('random', n)] * 14 + [('split', max(n // 12, 40))] * 2
 
 
 def run_shard(kind, n, seed, tier):
@@ -262,6 +326,9 @@ def run_shard(kind, n, seed, tier):
             exhaustive(st_)
         except Violation as v:
             st_.violation(v)
+        return st_
+    if kind == 'split':
+        campaign(split_st, check_split, n, seed, st_, tier)
         return st_
     campaign(txn_lists(), check, n, seed, st_, tier)
     return st_
